@@ -2,6 +2,8 @@
 import random
 
 CMDS = ["noop", "fail", "continue", "retry"]
+ALL_STATUSES = ["requested", "scheduled", "delayed", "running", "pending", "pausing", "paused", "resuming",
+                "succeeded", "failed", "timeout", "abandoned", "retrying", "canceling", "canceled"]
 
 
 def lit(v):
@@ -41,11 +43,67 @@ class Profile(object):
         self.p_input = 0.3
         self.p_parallel_edge = 0.1
         self.lang_jinja = 0.25
+        self.p_template = 0.25     # use a hand-written shape with random details
+        self.p_odd_strings = 0.3   # string values with newlines, comments, quotes, unicode
         for k, v in kw.items():
             setattr(self, k, v)
 
 
+def template_def(rng, prof):
+    """hand-written shapes that random growth rarely produces, with random details"""
+    def T(name, nxt=None, **kw):
+        t = {"name": name, "action": "core.noop", "input": [["p", ctx("x")]], "join": None, "with": None,
+             "retry": None, "delay": None, "next": nxt or []}
+        t.update(kw)
+        return t
+
+    def tr(do, when=None, publish=None):
+        return {"when": when, "publish": publish or [], "do": do}
+    k = rng.randint(0, 5)
+    w = rng.choice([None, fn("succeeded"), fn("completed")])
+    if k == 0:   # fork/join below a split
+        tasks = [T("a", [tr(["s"], w)]), T("b", [tr(["s"], rng.choice([None, fn("completed")]))]),
+                 T("s", [tr(["x", "y"])]), T("x", [tr(["j"], fn("succeeded"))]),
+                 T("y", [tr(["j"], rng.choice([fn("succeeded"), fn("completed")]))]),
+                 T("j", [tr(["z"])], join=rng.choice(["all", 2])), T("z")]
+        feat = "tpl_split_join"
+    elif k == 1:  # clean-up beside a fail command, with a concurrent branch
+        tasks = [T("t", [tr(["cleanup", "fail"], fn("failed"), [["err", lit("boom")]]), tr(["after"], fn("succeeded"))]),
+                 T("u", [tr(["v"])]), T("v"), T("cleanup"), T("after")]
+        feat = "tpl_cleanup_fail"
+    elif k == 2:  # with-items with concurrency, followed by a join with a sibling
+        tasks = [T("w", [tr(["j"], fn("succeeded"), [["r", fn("result")]]), tr(["h"], fn("failed"))],
+                   input=[["it", fn("item")]],
+                   **{"with": {"items": rng.choice([ctx("xs"), lit([1, 2, 3, 4])]), "key": None,
+                               "concurrency": rng.choice([None, lit(1), lit(2)])}}),
+                 T("s", [tr(["j"])]), T("j", join="all"), T("h")]
+        feat = "tpl_items_join"
+    elif k == 3:  # retry policy plus retry command, in a loop
+        tasks = [T("a", [tr(["b"])]),
+                 T("b", [tr(["a"], op("and", fn("succeeded"), op("lt", ctx("n"), lit(1))), [["n", op("add", ctx("n"), lit(1))]]),
+                         tr(["retry"], fn("failed")), tr(["c"], fn("succeeded"))],
+                   retry={"when": None, "count": lit(rng.randint(0, 2)), "delay": rng.choice([None, lit(2)])}),
+                 T("c")]
+        feat = "tpl_retry_loop"
+    elif k == 4:  # delayed task beside a quick one, decision on result
+        tasks = [T("a"), T("b", [tr(["c"], fn("succeeded"), [["vb", lit(1)]]), tr(["d"], fn("failed"))], delay=lit(5)),
+                 T("c"), T("d")]
+        feat = "tpl_delay"
+    else:         # two publish-only transitions and a noop ending
+        tasks = [T("a", [tr(["b", "c"])]), T("b", [tr(["noop"], None, [["x", lit(1)]])]),
+                 T("c", [tr(["continue"], None, [["v1", fn("result")]]), tr(["continue"], None, [["v2", lit(7)]])])]
+        feat = "tpl_publish_only"
+    d = {"input": [], "vars": [["x", lit(0)], ["xs", lit([1, 2, 3])], ["n", lit(0)], ["d", lit({"a": 1, "b": "s"})]],
+         "output": [["o1", ctx("x")]], "tasks": tasks}
+    if feat == "tpl_cleanup_fail":
+        d["output"].append(["o2", ctx("n")])
+    lang = "jinja" if rng.random() < prof.lang_jinja else "yaql"
+    return d, lang, {}, set([feat, "template"])
+
+
 def gen_def(rng, prof):
+    if prof.p_template and rng.random() < prof.p_template:
+        return template_def(rng, prof)
     n = rng.randint(1, prof.max_tasks)
     names = ["t%d" % i for i in range(1, n + 1)]
     varnames = ["x", "y", "z"]
@@ -54,7 +112,11 @@ def gen_def(rng, prof):
     # vars
     d["vars"].append(["x", lit(rng.randint(0, 3))])
     if rng.random() < 0.5:
-        d["vars"].append(["y", lit("s%d" % rng.randint(0, 9))])
+        yv = "s%d" % rng.randint(0, 9)
+        if rng.random() < prof.p_odd_strings:
+            yv = rng.choice(["line\n", "a\n\n", "x {# note #} y", "12", "true", "null", "1e5", "%s %d", "\u00fc\u00f1\u00ed",
+                             "say \"hi\"", "\"q\"", " padded ", "a=b", "x in y"])
+        d["vars"].append(["y", lit(yv)])
     if rng.random() < 0.3:
         d["vars"].append(["z", op("add", ctx("x"), lit(1))])
     d["vars"].append(["xs", lit([rng.randint(0, 9) for _ in range(rng.randint(0, 4))])])
@@ -103,7 +165,7 @@ def gen_def(rng, prof):
                     feats.add("publish_clash")
                 else:
                     v = "v%d" % (len(published) + 1)
-                val = rng.choice([lit(rng.randint(0, 99)), fn("result"), ctx("x"),
+                val = rng.choice([lit(rng.randint(0, 99)), fn("result"), ctx("x"), ctx("y") if any(v[0] == "y" for v in d["vars"]) else ctx("x"),
                                   op("add", ctx("x"), lit(1)), lit("w%d" % rng.randint(0, 9)),
                                   lit({"a": rng.randint(3, 9)}), lit(None)])
                 if rng.random() < 0.15:
@@ -205,7 +267,7 @@ def gen_def(rng, prof):
                 r["delay"] = lit(rng.randint(1, 5))
             t["retry"] = r
             feats.add("retry")
-        elif t["next"] and rng.random() < 0.04:
+        if t["next"] and rng.random() < 0.05:
             t["next"].append({"when": fn("failed"), "publish": [], "do": ["retry"]})
             feats.add("cmd_retry")
     for t in tasks:
@@ -219,7 +281,7 @@ def gen_def(rng, prof):
         feats.add("output")
     # failing expression
     if rng.random() < prof.p_badexpr:
-        bad = rng.choice([ctx("nope"), op("add", ctx("y_undefined"), lit(1)), ctx("__state"), {"ctxkey": "d", "k": "zz"},
+        bad = rng.choice([ctx("nope"), op("add", ctx("y_undefined"), lit(1)), ctx("__state"), {"ctxkey": "d", "k": "zz"}, op("div", lit(1), lit(0)),
                           {"item": "k"}, op("eq", ctx("nope2"), lit(1))])
         t = rng.choice(tasks)
         where = rng.choice(["input", "when", "publish", "items", "concurrency", "delay", "retry_when",
@@ -274,6 +336,10 @@ class HistProfile(object):
         self.p_task_pause = 0.0     # action reports pending/paused then resumes
         self.max_steps = 60
         self.fixed_outcomes = False
+        self.p_any_req = 0.0        # arbitrary status requests (malformed stream), mostly after terminal
+        self.p_rerun_any = 0.0      # rerun requested although the workflow has not completed
+        self.p_dup_report = 0.0     # a second, conflicting completion report for a finished action
+        self.p_late_running = 0.3   # after a pre-running report, `running` arrives later
         for k, v in kw.items():
             setattr(self, k, v)
 
@@ -295,6 +361,8 @@ class History(object):
         self.requested_pause = False
         self.requested_cancel = False
         self.started = []    # every started action (task, route, item)
+        self.prestart = []   # reported requested/scheduled/delayed, `running` still to come
+        self.finished = []   # (key, terminal status) of completed non-item actions
         self.offers_log = []
 
     def play(self, op):
@@ -319,10 +387,15 @@ class History(object):
                 continue   # an engine command offered as a task (finding D19): a provider cannot run it
             for a in o["actions"]:
                 key = (o["id"], o["route"], a["item_id"])
+                late = False
                 if a["item_id"] is None and self.rng.random() < self.hp.p_lifecycle:
                     for s in self.rng.choice([["requested"], ["scheduled"], ["requested", "scheduled"], ["delayed"]]):
                         self.report(key, s, None)
-                self.report(key, "running", None)
+                    late = self.rng.random() < self.hp.p_late_running and not self._retrying(key)
+                if late:
+                    self.prestart.append(key)
+                else:
+                    self.report(key, "running", None)
                 self.inflight.append(key)
                 self.started.append(key)
             if o["items_count"] == 0:
@@ -331,6 +404,15 @@ class History(object):
                            "result": None})
                 self.play({"op": "report", "task": o["id"], "route": o["route"], "status": "succeeded",
                            "result": []})
+
+    def _retrying(self, key):
+        """the retrying row of the task machine ignores pre-running reports, so a retried action is
+        started with `running` right away"""
+        st = self.replies[-1].get("state") if self.replies else None
+        if not st:
+            return False
+        idx = st["tasks"].get("%s__r%s" % (key[0], key[1]))
+        return idx is not None and st["sequence"][idx]["status"] == "retrying"
 
     def report(self, key, status, result):
         task, route, item = key
@@ -346,7 +428,13 @@ class History(object):
 
     def complete_one(self):
         i = self.rng.randrange(len(self.inflight))
-        key = self.inflight.pop(i)
+        key = self.inflight[i]
+        if key in self.prestart:
+            self.prestart.remove(key)
+            self.report(key, "running", None)
+            if self.rng.random() < 0.7:
+                return      # it only started now; it completes at a later step
+        self.inflight.pop(i)
         st = self.status()
         r = self.rng.random()
         if self.hp.p_task_pause and key[2] is None and r < self.hp.p_task_pause:
@@ -363,6 +451,8 @@ class History(object):
         failed = self.plan(key[0])
         res = self.rng.choice([1, 1, 2, "r", None, {"k": 1}])
         self.report(key, "failed" if failed else "succeeded", res)
+        if key[2] is None:
+            self.finished.append((key, "failed" if failed else "succeeded"))
 
     def run(self):
         rng, hp = self.rng, self.hp
@@ -380,6 +470,14 @@ class History(object):
             self.start_offers(offers)
             if hp.p_persist and rng.random() < hp.p_persist:
                 self.play({"op": "persist"})
+            st = self.status()
+            if hp.p_dup_report and self.finished and rng.random() < hp.p_dup_report:
+                key, was = rng.choice(self.finished)
+                self.report(key, "failed" if was == "succeeded" else "succeeded", rng.choice([7, "late"]))
+            if hp.p_rerun_any and st not in ("succeeded", "failed", "canceled") and rng.random() < hp.p_rerun_any:
+                self.play({"op": "rerun", "reqs": []})
+            if hp.p_any_req and rng.random() < hp.p_any_req * (0.15 if st not in ("succeeded", "failed", "canceled") else 1.0):
+                self.play({"op": "req", "status": rng.choice(ALL_STATUSES)})
             st = self.status()
             # control requests
             if hp.p_pause and rng.random() < hp.p_pause and st in ("running", "resuming"):
@@ -424,6 +522,12 @@ class History(object):
                 continue
             if st in ("succeeded", "failed", "canceled"):
                 self.play({"op": "render"})
+                if hp.p_any_req and rng.random() < hp.p_any_req:
+                    for _ in range(rng.randint(1, 3)):
+                        self.play({"op": "req", "status": rng.choice(ALL_STATUSES)})
+                    self.play({"op": "next"})
+                    if self.status() not in ("succeeded", "failed", "canceled"):
+                        continue
                 if st == "failed" and hp.p_rerun and reruns < 2 and rng.random() < hp.p_rerun:
                     reruns += 1
                     self.do_rerun()
